@@ -159,7 +159,63 @@ func (w *World) cwrite(ctx context.Context, toks []string) {
 	w.printf("cacks %d acks=%s putorder=%s\n", p, strings.Join(ackS, ","), strings.Join(relS, ","))
 }
 
+// staleidx p <keyhex> <v1hex> <v2hex> : two writes of the same key by two goroutines; the first is held
+// right after its index took its snapshot of the log, the second is started meanwhile, then the first
+// is released. Whatever the interleaving, the view must end up as the replay of the log.
+func (w *World) staleIdx(ctx context.Context, toks []string) {
+	p := atoi(toks[1])
+	key, v1, v2 := unhx(toks[2]), unhx(toks[3]), unhx(toks[4])
+	s := w.stores[p]
+	const hook = "index.snapshot.taken"
+	put := func(v []byte) (operation.Operation, error) {
+		switch st := s.(type) {
+		case iface.KeyValueStore:
+			return st.Put(ctx, string(key), v)
+		case iface.DocumentStore:
+			return st.Put(ctx, docOf(key, v))
+		}
+		return nil, fmt.Errorf("staleidx: unsupported store")
+	}
+	type res struct {
+		op  operation.Operation
+		err error
+	}
+	r1, r2 := make(chan res, 1), make(chan res, 1)
+	w.holdFirst(hook)
+	go func() { op, err := put(v1); r1 <- res{op, err} }()
+	held := w.waitHook(hook, 1)
+	go func() { op, err := put(v2); r2 <- res{op, err} }()
+	var a2 *res
+	select {
+	case x := <-r2:
+		a2 = &x
+	case <-time.After(20 * time.Millisecond):
+	}
+	w.releaseHook(hook)
+	a1 := <-r1
+	if a2 == nil {
+		x := <-r2
+		a2 = &x
+	}
+	for _, e := range s.OpLog().Values().Slice() {
+		w.name(e)
+	}
+	var ackS []string
+	for _, r := range []res{a1, *a2} {
+		if r.err != nil {
+			ackS = append(ackS, "err")
+		} else {
+			ackS = append(ackS, w.name(r.op.GetEntry()))
+		}
+	}
+	w.printf("cacks %d acks=%s putorder=- held=%v\n", p, strings.Join(ackS, ","), held)
+}
+
 func (w *World) execConcOp(ctx context.Context, toks []string) (bool, error) {
+	if toks[0] == "staleidx" {
+		w.staleIdx(ctx, toks)
+		return true, nil
+	}
 	if toks[0] == "cwrite" {
 		w.cwrite(ctx, toks)
 		return true, nil
